@@ -764,6 +764,17 @@ func (fx *FX) evalCall(env *Env, t *ECall) Val {
 			return Val{T: w.IfaceGet(x.T, typ), Typ: typ}
 		}
 		return Val{T: x.T, Typ: typ}
+	case "load":
+		x := arg(0)
+		if x.Typ == nil {
+			env.fail("load of untyped reference")
+		}
+		pt, ok := x.Typ.Underlying().(*types.Pointer)
+		if !ok {
+			env.fail("load of non-pointer")
+		}
+		a := fx.addrOfTerm(x.T, pt.Elem())
+		return Val{T: fx.load(env.fr, env.st, a, 0), Typ: pt.Elem()}
 	case "iref":
 		// reference carried by an interface value holding a pointer
 		x := arg(0)
